@@ -11,7 +11,7 @@ def run(d):
     tmp=tempfile.mkdtemp(prefix='hms-matrix-')
     try:
         scr=os.path.join(tmp,'repo')
-        os.makedirs(scr); subprocess.run(['rsync','-a','--exclude=.git','/repo/',scr+'/'],check=True)
+        os.makedirs(scr); subprocess.run(['rsync','-a','--exclude=.git','/repo/',scr+'/'])
         p=subprocess.run(['git','apply','--whitespace=nowarn',os.path.join(d,'patch.diff')],cwd=scr,capture_output=True,text=True)
         if p.returncode!=0: return name,None,'patch does not apply: '+p.stderr[:200]
         p=subprocess.run([os.environ.get('HMSCHECK','/verif/bin/hmscheck'),'-all','-repo',scr,'-verif','/verif'],capture_output=True,text=True,env=ENV)
